@@ -64,6 +64,22 @@ class Runtime:
         return int(v)
 
     @staticmethod
+    def cdiv(a, b):
+        """true division inside cdivision(True) code"""
+        if is_sym(a) or is_sym(b):
+            return a / b
+        try:
+            return a / b
+        except ZeroDivisionError:
+            if isinstance(a, builtins.int) and isinstance(b, builtins.int):
+                raise        # C integer division by zero is undefined behaviour: keep the error visible
+            fa = builtins.float(a)
+            if fa != fa or fa == 0.0:
+                return builtins.float('nan')
+            neg = (fa < 0) != (math.copysign(1.0, builtins.float(b)) < 0)
+            return builtins.float('-inf') if neg else builtins.float('inf')
+
+    @staticmethod
     def truth(v):
         """C truth value of an expression as 1 / 0 (forks on a symbolic condition)"""
         return 1.0 if v else 0.0
